@@ -348,8 +348,8 @@ def decW5Action (s : Slice) : Outcome (Val × Slice) := do
     match c with
     | .mk ty _ _ _ =>
       if ty == tyLibrary then .err "library cell as a ref is not implemented"
-      else if ty == tyPruned then pure (Val.list [.int w5Magic, .int mode, .none], s3)
-      else pure (Val.list [.int w5Magic, .int mode, Val.some (.cell c)], s3)
+      else if ty == tyPruned then pure (Val.list [.magic, .int mode, .none], s3)
+      else pure (Val.list [.magic, .int mode, Val.some (.cell c)], s3)
 
 def decW5Aux : Nat → Slice → List Val → Outcome (Val × Slice)
   | 0, _, _ => .err "fuel"
